@@ -214,10 +214,10 @@ def c01_tail_echo(ctx):
 # C03 — print paths through COPIES of the parsed tag array (seeded/C03-c2: the TagBit copy constructor turned
 # RawVariable into Variable), nested raw/var positions, and non-Latin-1 units on every path (seeded/C02-c2).
 
-C03_MODES = ["var", "ptr", "arr", "loopval", "loopkey", "echo", "raw", "rawptr", "svar", "svarb",
+C03_MODES = ["var", "ptr", "ptr2", "ptr3", "rawptr2", "loopptr2", "svarptr2", "iifptr2", "arr", "loopval", "loopkey", "echo", "raw", "rawptr", "svar", "svarb",
              "rawloop", "rawif", "rawelse", "rawiif", "rawiiff", "rawsvar", "varif", "variif"]
 C03_OLD = {"var", "ptr", "arr", "loopval", "loopkey", "echo", "raw", "rawptr", "svar", "svarb"}
-C03_RAW = {"raw", "rawptr", "rawloop", "rawif", "rawelse", "rawiif", "rawiiff", "rawsvar"}
+C03_RAW = {"raw", "rawptr", "rawptr2", "rawloop", "rawif", "rawelse", "rawiif", "rawiiff", "rawsvar"}
 
 
 def _c03_expect(mode, u):
